@@ -261,6 +261,29 @@ func init() {
 					ff[name] = lv
 				}
 			}
+			// the update sets a single-item property to a value that has neither id nor type and carries only data of
+			// its own kind (coordinates, an href, members): valid hand-built values no decoder would produce
+			if c.R.Chance(20) {
+				anon := []T{
+					{"t": "Place", "ptr": true, "f": T{"Latitude": T{"dec6": 45500000}, "Longitude": T{"dec6": -73600000}}},
+					{"t": "Link", "ptr": true, "f": T{"Href": T{"s": g2.nextID("href")}, "MediaType": T{"s": "image/png"}}},
+					{"t": "OrderedCollection", "ptr": true, "f": T{"TotalItems": T{"uint": 2}, "OrderedItems": T{"list": []interface{}{T{"iri": g2.nextID("m")}, T{"iri": g2.nextID("m")}}}}},
+					{"t": "OrderedCollectionPage", "ptr": true, "f": T{"OrderedItems": T{"list": []interface{}{T{"iri": g2.nextID("m")}}}}},
+				}
+				var cand []string
+				for _, fams := range []string{"Object", goType} {
+					for _, name := range c18Merged[fams] {
+						if fieldKind(goType, name) == "item" {
+							cand = append(cand, name)
+						}
+					}
+				}
+				if len(cand) > 0 {
+					name := cand[c.R.Intn(len(cand))]
+					ff[name] = cloneTree(anon[c.R.Intn(len(anon))])
+					tag = "anonymous-typed-value-in-from/" + goType
+				}
+			}
 			// a collection that reports a total smaller than the list the update brings (the update itself reports none)
 			if strings.Contains(goType, "Collection") && c.R.Chance(25) {
 				itemsField := "Items"
